@@ -351,10 +351,12 @@ c.check_before('try: p = websocket_wait()', 'reads-only-while-open', 'not self.c
                props=['C05'])
 c.may_raise('Exception', 'True', label='driver-or-frame-error', ensures=[
     ('events-only-grow', 'grows(events, old(events))'),
+    ('queue-wf', 'self.queue.unf >= len(self.queue.items)'),
     ('failed-upgrade-consumes-nothing',
      'implies(not self.upgraded, self.queue.taken == old(self.queue.taken))')], props=['C06'])
 c.ensures('flag-reset', 'not self.upgrading', props=['C06'])
 c.ensures('events-only-grow', 'grows(events, old(events))')
+c.ensures('queue-wf', 'self.queue.unf >= len(self.queue.items)')
 c.ensures('upgrade-only-via-probe', 'implies(old(self.connected) and self.upgraded, '
           'handshake_frames(ws_log, len(old(ws_log))))', props=['C06'])
 c.ensures('failed-upgrade-harmless', 'implies(old(self.connected) and not self.upgraded, '
@@ -394,10 +396,14 @@ c.raises('OSError', 'self.upgraded', label='already-upgraded-refused',
 c.may_raise('Exception', 'not self.upgraded', label='driver-or-frame-error', ensures=[
     ('flag-reset', 'not self.upgrading'),
     ('events-only-grow', 'grows(events, old(events))'),
+    ('queue-wf', 'self.queue.unf >= len(self.queue.items)'),
     ('failed-upgrade-consumes-nothing',
      'implies(not self.upgraded, self.queue.taken == old(self.queue.taken))')], props=['C06'])
 c.ensures('flag-reset', 'not self.upgrading', props=['C06'])
 c.ensures('events-only-grow', 'grows(events, old(events))')
+c.ensures('queue-wf', 'self.queue.unf >= len(self.queue.items)')
+c.ensures('handled-returns-empty-list', "implies(self.server._async['websocket'] is not None, "
+          "result == [])")
 c.ensures('unavailable-is-400', "implies(self.server._async['websocket'] is None, "
           "result['status'] == '400 BAD REQUEST' and " + QUIET + ")", props=['C06'])
 c.ensures('upgrade-only-via-probe', 'implies(old(self.connected) and self.upgraded, '
@@ -429,17 +435,25 @@ c.raises('OSError', UPG + ' and self.upgraded', label='already-upgraded-refused'
 c.may_raise('Exception', UPG + ' and not self.upgraded', label='driver-or-frame-error', ensures=[
     ('flag-reset', 'not self.upgrading'),
     ('events-only-grow', 'grows(events, old(events))'),
+    ('queue-wf', 'self.queue.unf >= len(self.queue.items)'),
     ('failed-upgrade-consumes-nothing',
      'implies(not self.upgraded, self.queue.taken == old(self.queue.taken))')], props=['C06'])
 c.may_raise('QueueEmpty', 'not ' + UPG + ' and not (self.upgrading or self.upgraded)',
             label='poll-timeout-closes-session', ensures=[
     ('nothing-taken', 'self.queue.taken == old(self.queue.taken)'),
+    ('queue-wf', 'self.queue.unf >= len(self.queue.items)'),
     ('events-only-grow', 'grows(events, old(events))'),
     ('closed-with-transport-error', "self.closing and implies(not old(self.closing) and "
      "'disconnect' in self.server.handlers, one_disconnect(events, old(events), "
      "self.server.handlers['disconnect'], self.sid, 'transport error'))")],
             props=['C07', 'C05'])
 c.ensures('events-only-grow', 'grows(events, old(events))')
+c.ensures('queue-wf', 'self.queue.unf >= len(self.queue.items)')
+c.ensures('result-packets-wf', 'implies(not (' + UPG + " and self.server._async['websocket'] "
+          "is None), forall(lambda k: result[k] is not None and packet_ok(result[k]), 0, "
+          "len(result)))")
+c.ensures('upgrade-unavailable-is-400', 'implies(' + UPG + " and self.server._async['websocket'] "
+          "is None, result['status'] == '400 BAD REQUEST' and " + QUIET + ')', props=['C06'])
 c.ensures('polls-during-upgrade-get-noop', 'implies(not ' + UPG + ' and '
           '(old(self.upgrading) or old(self.upgraded)), len(result) == 1 and '
           'result[0].packet_type == 6 and self.queue.taken == old(self.queue.taken) and '
